@@ -1,4 +1,5 @@
 import RactorModel.Model.Election
+import RactorModel.Model.Handshake
 import Driver.Common
 
 /-! Driver for the `Election` model (C18).
@@ -14,6 +15,8 @@ ops (written by the harness after executing them on the real code):
   `elected <pid>`                                    → `true|false`
   `close <pid>`                                      → `ok`
   `visible`                                          → sorted pids GetSessions would list
+  `hs <nameA> <nameB> <aInit:nonce:idA:idB,…>`        → `ok`   (two NodeServerStates, `Model/Handshake.lean`)
+  `hauthA|hauthB|hpreA|hpreB|hseeA|hseeB <id>`, `hend` → `OA[open] OB[open] VA[listed] VB[listed]`
 -/
 
 namespace Driver.C18
@@ -52,6 +55,71 @@ def parseWorldImpl? (s : String) : Option (List Nat × List Nat) :=
 structure DS where
   ns : NS
   readyImpl : List Nat := []
+  hsO : Ordering := .lt
+  hsCs : List Conn := []
+  hsW : List Link := []
+
+def hsObs (w : List Link) : String :=
+  let f (l : List Nat) := showNats (sortNats l)
+  s!"OA[{f ((w.filter (·.openA)).map (·.c.idA))}] OB[{f ((w.filter (·.openB)).map (·.c.idB))}] " ++
+  s!"VA[{f ((w.filter (fun l => l.openA && l.authA)).map (·.c.idA))}] VB[{f ((w.filter (fun l => l.openB && l.authB)).map (·.c.idB))}]"
+
+def betweenBr (s tag : String) : Option (List Nat) :=
+  match s.splitOn (tag ++ "[") with
+  | [_, rest] => match rest.splitOn "]" with
+    | x :: _ => natList? x
+    | [] => none
+  | _ => none
+
+/-- the connection(s) both full elections keep: by `C18.agreement` exactly the acceptor's choice -/
+def hsWinners (o : Ordering) (cs : List Conn) : List Conn :=
+  let eA := electA o cs; let eB := electB o cs
+  cs.filter (fun c => eA.contains c.idA && eB.contains c.idB)
+
+/-- oracle on the implementation's observation: the winner is open on both nodes; at the end
+both nodes hold exactly the winner -/
+def hsJudge (o : Ordering) (cs : List Conn) (impl : String) (atEnd : Bool) : List String :=
+  match betweenBr impl "OA", betweenBr impl "OB" with
+  | some oa, some ob =>
+    let ws := hsWinners o cs
+    (if ws.all (fun c => oa.contains c.idA && ob.contains c.idB) then [] else ["hs-winner-closed"]) ++
+    (if !atEnd then [] else
+      match oa, ob with
+      | [x], [y] => if cs.any (fun c => c.idA == x && c.idB == y) then [] else ["hs-not-one-same-link"]
+      | _, _ => ["hs-not-one-same-link"])
+  | _, _ => ["unparsable"]
+
+def hsOp? (k : String) (id : Nat) : Option HOp :=
+  match k with
+  | "hauthA" => some (.authA id) | "hauthB" => some (.authB id)
+  | "hpreA" => some (.preA id) | "hpreB" => some (.preB id)
+  | "hseeA" => some (.seeA id) | "hseeB" => some (.seeB id)
+  | _ => none
+
+def stepHs (ds : DS) (op impl : String) : Option (DS × StepOut) :=
+  match words op with
+  | ["hs", nameA, nameB, cs] =>
+    match (splitOnChar cs ',').mapM parseConn? with
+    | some cs =>
+      some ({ ds with hsO := nameOrd nameB nameA, hsCs := cs, hsW := hsInit cs }, { model := "ok" })
+    | none => some (ds, { model := "bad-op" })
+  | ["hend"] =>
+    let orc := hsJudge ds.hsO ds.hsCs impl true
+    let out : StepOut := { model := hsObs ds.hsW, oracle := orc, nontrivial := decide (ds.hsCs.length > 1) }
+    some (ds, out)
+  | [k, id] =>
+    match id.toNat? with
+    | some id =>
+      match hsOp? k id with
+      | some hop =>
+        let w' := hsStep ds.hsO ds.hsW hop
+        let changed : Bool := w' != ds.hsW
+        let orc := hsJudge ds.hsO ds.hsCs impl false
+        let out : StepOut := { model := hsObs w', oracle := orc, nontrivial := changed }
+        some ({ ds with hsW := w' }, out)
+      | none => none
+    | none => none
+  | _ => none
 
 /-- oracle: among sessions the implementation reports ready at one instant, at most one
 per peer is server-side (accepting node keeps exactly one; `commit_leaves_elected_set`). -/
@@ -164,6 +232,9 @@ def stepNS (st : NS) (op impl : String) : NS × StepOut :=
   | _ => (st, { model := "bad-op" })
 
 def step (ds : DS) (op impl : String) : DS × StepOut :=
+  match stepHs ds op impl with
+  | some r => r
+  | none =>
   let (ns', out) := stepNS ds.ns op impl
   match words op with
   | ["elected", pid] =>
